@@ -6,8 +6,8 @@ from . import coqgen as G
 from .common import *
 
 ID = "C06"
-PROPS = ["Prop_C06"]
-IMPORTS = "From MV Require Import Base Num NumFloat Lifecycle Corr Lfr Corr_C06.\nFrom Coq Require Import PrimFloat."
+PROPS = ["Prop_C06", "Prop_C06_percentile"]
+IMPORTS = "From MV Require Import Base Num NumFloat Lifecycle Corr Lfr Corr_C06 Corr_Percentile.\nFrom Coq Require Import PrimFloat."
 CORR_NAME = "Corr_C06: Lfr.v (confusion matrix, statistics, gating, bounds cache; Monte-Carlo bounds and numpy round as logged oracles) = lfr.py"
 TRUSTED = ["Coq 8.16.1 kernel + vm_compute + primitive floats",
            "hand-written model coq/Lfr.v tied to lfr.py by differential execution (states, recs, statistics bit-for-bit, and the exact sequence and arguments of _sim_bounds calls)",
@@ -33,7 +33,15 @@ class LogLFR(LinearFourRates):
 
     def _sim_bounds(self, est_rate, denom):
         state = np.random.get_state()
-        b = super()._sim_bounds(est_rate, denom)
+        cap, orig_pct = [], np.percentile
+        def pct(a, q, *args, **kw):          # the Monte-Carlo sample the four percentiles are taken of
+            try:
+                cap.append([float(v) for v in np.asarray(a, dtype=float).ravel()])
+            except Exception:
+                cap.append(None)
+            return orig_pct(a, q, *args, **kw)
+        with rebound(np, "percentile", pct):
+            b = super()._sim_bounds(est_rate, denom)
         after = np.random.get_state()
         if self._vlog:
             self._vlog[-1][3] = [float(b[k]) for k in BK]
@@ -43,6 +51,9 @@ class LogLFR(LinearFourRates):
                                                    self.num_mc, est_rate, denom))
             np.random.set_state(after)
             self._vlog[-1].append([float(est_rate), int(denom)])      # what the simulation was really asked for
+            ok = len(cap) == 4 and cap[0] is not None and all(c == cap[0] for c in cap) and 0 < len(cap[0]) <= 400 \
+                and not any(v != v for v in cap[0]) and not (any(str(v) == "-0.0" for v in cap[0]) and any(str(v) == "0.0" for v in cap[0]))
+            self._vlog[-1].append(sorted(cap[0]) if ok else None)     # the sorted sample (None: not usable for the model)
         return b
 
 
@@ -279,7 +290,15 @@ def coq_term(case, obs):
         ex = (r["r"] or [None] * 4) + [1.0, None if r["ncache"] is None else float(r["ncache"])]
         rows.append(row_term(r["ds"], r["total"], r["since"], r["recs"], ex))
     tr = G.zlist([RATES.index(t) for t in p["tracked"]])
-    return f"chk_lfr {G.flt(p['eta'])} {G.z(p['burn_in'])} {G.z(p['subsample'])} {tr} {G.lst(xs)} {G.lst(rows)}"
+    pcts = []
+    for r in obs["rows"]:
+        for e in r["log"]:
+            if len(e) > 6 and e[3] is not None and e[6] is not None and len(pcts) < 12:
+                # numpy's percentile (Percentile.v, bit-exact): the four bounds are the warning / detect level percentiles
+                # of the simulated sample
+                pcts.append(f"chk_lfr_bounds {G.fltlist(e[6])} {G.flt(p['warn'])} {G.flt(p['detect'])} " + " ".join(G.flt(v) for v in e[3]))
+    extra_t = "".join(f" && {t}" for t in pcts)
+    return f"chk_lfr {G.flt(p['eta'])} {G.z(p['burn_in'])} {G.z(p['subsample'])} {tr} {G.lst(xs)} {G.lst(rows)}" + extra_t
 
 
 def show_term(case, obs):
